@@ -20,6 +20,7 @@ import (
 
 	"github.com/goccmack/gocc/internal/ast"
 	"github.com/goccmack/gocc/internal/lexer/symbols"
+	"github.com/goccmack/gocc/internal/verifhook"
 )
 
 /*
@@ -112,6 +113,7 @@ func (this *ItemSet) getSymbolClasses() {
 			this.SymbolClasses.AddLexTNode(item.ExpectedSymbol())
 		}
 	}
+	this.verifCheckClasses()
 }
 
 func (this *ItemSet) newTransitions() {
@@ -160,6 +162,7 @@ func (this *ItemSet) dependentsClosure(items ItemList) ItemList {
 	}
 	// fmt.Printf("dependentsClosure S%d, %s\n", this.setNo, items)
 	for i := 0; i < len(items); i++ {
+		verifhook.Step(verifhook.SiteLexDependentsClosure)
 		for _, thisItem := range this.Items {
 			if expSym := thisItem.ExpectedSymbol(); expSym != nil && expSym.String() == items[i].Id {
 				if items[i].Reduce() {
